@@ -316,6 +316,9 @@ class History(Machine):
                 argv.append("--parse-hierarchy")
             optional.append({"kind": "cli", "label": f"parse-{fmt}{'-hier' if hier else ''}", "seed": seed, "argv": argv,
                              "inputs": [base_in(b_env, "e.suit", "in/e.suit")]})
+        optional.append({"kind": "cli", "label": "parse-other-envelope", "seed": seed,
+                         "argv": ["parse", "--input-file", f"{W}/in/e.suit", "--output-file", f"{W}/out/p.json",
+                                  "--output-format", "json"], "inputs": [base_in(b_boot, "e.suit", "in/e.suit")]})
         optional.append({"kind": "cli", "label": "parse-stdout", "seed": seed, "stdout": True,
                          "argv": ["parse", "--input-file", f"{W}/in/e.suit"], "inputs": [base_in(b_env, "e.suit", "in/e.suit")]})
         optional.append({"kind": "cli", "label": "image-boot", "seed": seed,
